@@ -1,7 +1,77 @@
-//! C10 — harness not built yet.
+//! C10 — scratch probe
+use crate::c09::*;
 use crate::common::*;
+use std::rc::Rc;
+use sudachi::analysis::node::ResultNode;
+use sudachi::analysis::lattice::Lattice;
+use sudachi::analysis::stateful_tokenizer::StatefulTokenizer;
+use sudachi::analysis::stateless_tokenizer::DictionaryAccess;
+use sudachi::config::Config;
+use sudachi::dic::dictionary::JapaneseDictionary;
+use sudachi::dic::grammar::Grammar;
+use sudachi::dic::lexicon_set::LexiconSet;
+use sudachi::input_text::InputBuffer;
+use sudachi::plugin::input_text::InputTextPlugin;
+use sudachi::plugin::oov::OovProviderPlugin;
+use sudachi::plugin::path_rewrite::PathRewritePlugin;
+use sudachi::prelude::*;
 
-pub fn run(_args: &Args) {
-    eprintln!("no harness for C10 yet");
-    std::process::exit(2);
+pub struct FailingRewrite;
+impl PathRewritePlugin for FailingRewrite {
+    fn set_up(&mut self, _s: &serde_json::Value, _c: &Config, _g: &Grammar) -> SudachiResult<()> {
+        Ok(())
+    }
+    fn rewrite(&self, text: &InputBuffer, path: Vec<ResultNode>, _l: &Lattice) -> SudachiResult<Vec<ResultNode>> {
+        if text.current().contains('!') {
+            Err(SudachiError::InvalidRange(0, 0))
+        } else {
+            Ok(path)
+        }
+    }
+}
+pub struct WrapDict {
+    pub inner: JapaneseDictionary,
+    pub prw: Vec<Box<dyn PathRewritePlugin + Sync + Send>>,
+}
+impl DictionaryAccess for WrapDict {
+    fn grammar(&self) -> &Grammar<'_> {
+        self.inner.grammar()
+    }
+    fn lexicon(&self) -> &LexiconSet<'_> {
+        self.inner.lexicon()
+    }
+    fn input_text_plugins(&self) -> &[Box<dyn InputTextPlugin + Sync + Send>] {
+        self.inner.input_text_plugins()
+    }
+    fn oov_provider_plugins(&self) -> &[Box<dyn OovProviderPlugin + Sync + Send>] {
+        self.inner.oov_provider_plugins()
+    }
+    fn path_rewrite_plugins(&self) -> &[Box<dyn PathRewritePlugin + Sync + Send>] {
+        &self.prw
+    }
+}
+
+pub fn run(args: &Args) {
+    let res = prepare_resources(&args.work);
+    let cfg = config_json(&res, "");
+    let mut rng = Rng::new(1);
+    let lx = gen_lexica(&mut rng, false);
+    let d = build_dict(&lx.csv(0), &[], &cfg).unwrap();
+    let wd = Rc::new(WrapDict { inner: d, prw: vec![Box::new(FailingRewrite)] });
+    let mut tok = StatefulTokenizer::new(wd.clone(), Mode::C);
+    let mut list = MorphemeList::empty(wd.clone());
+    for t in ["ab", "a!b", "", "ab"] {
+        tok.reset().push_str(t);
+        let r = tok.do_tokenize();
+        println!("{:?}: do_tokenize -> {:?}", t, r.as_ref().map_err(|e| e.to_string()));
+        if r.is_ok() {
+            let c = catch(|| list.collect_results(&mut tok).map_err(|e| e.to_string()));
+            println!("   collect -> {:?}, len {}", c, list.len());
+        }
+    }
+    let mut fresh = StatefulTokenizer::new(wd.clone(), Mode::C);
+    fresh.reset().push_str("");
+    println!("fresh \"\": {:?}", fresh.do_tokenize().map_err(|e| e.to_string()));
+    let mut l2 = MorphemeList::empty(wd.clone());
+    println!("fresh collect: {:?} len {}", l2.collect_results(&mut fresh).map_err(|e| e.to_string()), l2.len());
 }
